@@ -175,6 +175,8 @@ func Expr(e Node) string {
 			f = "gsub"
 		}
 		return f + "(/" + RegexSrc(e["re"].(Node)) + "/, " + Expr(e["repl"].(Node)) + ", " + Expr(e["lv"].(Node)) + ")"
+	case "matchfn":
+		return "match(" + Expr(e["e"].(Node)) + ", /" + RegexSrc(e["re"].(Node)) + "/)"
 	case "call":
 		return e["f"].(string) + "(" + exprList(nodes(e["args"])) + ")"
 	case "bi":
@@ -201,7 +203,7 @@ func operand(e Node) string {
 		if intOf(e["n"]) >= 0 {
 			return Expr(e)
 		}
-	case "str", "var", "idx", "call", "bi", "group", "fnum":
+	case "str", "var", "idx", "call", "bi", "group", "fnum", "matchfn":
 		return Expr(e)
 	case "field":
 		ix := e["e"].(Node)
